@@ -49,8 +49,10 @@ def _key(cards: Any) -> tuple:
 
 
 class ComboLookup:
-    def __init__(self, ctx: Any, levels: int, with_validity: bool, down_closed: bool = False) -> None:
+    def __init__(self, ctx: Any, levels: int, with_validity: bool, down_closed: bool = False,
+                 labels: bool = False) -> None:
         self.ctx, self.levels, self.with_validity, self.down_closed = ctx, levels, with_validity, down_closed
+        self.labels = labels
         self.valid: dict = {}
         self.idx: dict = {}
         self.asked: list = []
@@ -88,6 +90,9 @@ class ComboLookup:
         key = self.ensure(cards)
         if not self.valid[key]:
             raise ValueError('invalid')
+        if self.labels:
+            # several strengths share the best category's label: the result must not depend on labels
+            return Entry(self.idx[key], Label.STRAIGHT_FLUSH if self.idx[key] >= 1 else Label.HIGH_CARD)
         return Entry(self.idx[key], Label.HIGH_CARD)
 
 
@@ -117,7 +122,7 @@ def legal_combos(rule: str, hole: list, board: list, cc: int, bc: int, hc: int) 
 
 
 def h_compose(ctx: Any, base: str, rule: str, nh: int, nb: int, low: bool, validity: bool,
-              levels: int = 0, or_none: bool = False, as_iter: bool = False) -> None:
+              levels: int = 0, or_none: bool = False, as_iter: bool = False, labels: bool = False) -> None:
     import pokerkit.hands as H
     cls0 = getattr(H, base)
     cards = _deck()
@@ -126,7 +131,7 @@ def h_compose(ctx: Any, base: str, rule: str, nh: int, nb: int, low: bool, valid
     bc = getattr(cls0, 'board_card_count', 0)
     hc = getattr(cls0, 'hole_card_count', 0)
     legal = legal_combos(rule, hole, board, cc, bc, hc)
-    lk = ComboLookup(ctx, levels or max(2, min(len(legal), 4)), validity, down_closed=(rule == 'badugi'))
+    lk = ComboLookup(ctx, levels or max(2, min(len(legal), 4)), validity, down_closed=(rule == 'badugi'), labels=labels)
 
     class X(cls0):  # type: ignore
         lookup = lk  # type: ignore
@@ -281,6 +286,10 @@ def jobs(tier: str, seed: int) -> list[dict]:
     add('iter/badugi/3', ['hand', 'none'], base='BadugiHand', rule='badugi', nh=3, nb=0, low=True, validity=True,
         levels=2, as_iter=True)
     add('iter/kuhn/3', ['hand'], base='KuhnPokerHand', rule='kuhn', nh=2, nb=1, low=False, validity=False, levels=3, as_iter=True)
+    # the entry label varies with the strength (two strengths share the top category's label)
+    for low in (False, True):
+        add(f'any5of6/labels/low{int(low)}', ['hand'], base='StandardHighHand', rule='any', nh=2, nb=4, low=low,
+            validity=False, levels=3, labels=True)
     # degenerate sizes: too few cards => no hand
     add('any/4cards', ['none'], base='StandardHighHand', rule='any', nh=2, nb=2, low=False, validity=False)
     add('omaha/1hole', ['none'], base='OmahaHoldemHand', rule='holeboard', nh=1, nb=4, low=False, validity=False)
@@ -296,4 +305,6 @@ def jobs(tier: str, seed: int) -> list[dict]:
                 validity=False, levels=2)
             add(f'any5of7/{L}', ['hand'], base='StandardHighHand', rule='any', nh=2, nb=5, low=low,
                 validity=False, levels=2)
+        add('omaha/3h4b/labels', ['hand'], base='OmahaHoldemHand', rule='holeboard', nh=3, nb=4, low=False,
+            validity=False, levels=2, labels=True)
     return out
